@@ -223,6 +223,11 @@ func mustBody(src string, json bool) hcl.Body {
 	return f.Body
 }
 
+type sharedSchema struct {
+	sch  *hcl.BodySchema
+	body hcl.Body
+}
+
 type sharedParent struct {
 	e      hclsyntax.Expression
 	parent *hcl.EvalContext
@@ -354,9 +359,117 @@ func All() []Driver {
 				return show(v, d)
 			}},
 	)
+	// D13: one schema value (Blocks built by append, so with spare capacity, as hcldec.ImpliedSchema
+	// and gohcl.ImpliedBodySchema build theirs) used by every goroutine on its own dynblock-expanded
+	// remainder body; the remainders hide different block types.
+	ds = append(ds, Driver{Name: "D13-shared-schema-dynblock-remain-3", Doc: "one *hcl.BodySchema (Blocks with spare capacity) passed to Content of goroutine-specific dynblock remainder bodies that hide different block types", Threads: 3,
+		Setup: func() any {
+			sch := &hcl.BodySchema{Attributes: []hcl.AttributeSchema{{Name: "a"}}}
+			sch.Blocks = make([]hcl.BlockHeaderSchema, 0, 8)
+			sch.Blocks = append(sch.Blocks, hcl.BlockHeaderSchema{Type: "common"})
+			return &sharedSchema{sch: sch, body: mustBody("a = n\ncommon {\n}\np0 {\n}\np1 {\n}\np2 {\n}\np0 {\n}\ndynamic \"common\" {\n  for_each = l[*].a\n  content {\n  }\n}\n", false)}
+		},
+		Thread: func(shared any, i int) string {
+			sh := shared.(*sharedSchema)
+			exp := dynblock.Expand(sh.body, ctxFor(i))
+			var hide hcl.BodySchema
+			for j := 0; j < 3; j++ {
+				// goroutine i extracts every pN first, in an order of its own, so that the
+				// remainder hides all of them but registers them in a different order
+				hide.Blocks = append(hide.Blocks, hcl.BlockHeaderSchema{Type: fmt.Sprintf("p%d", (i+j)%3)})
+			}
+			c1, rem, d1 := exp.PartialContent(&hide)
+			c2, d2 := rem.Content(sh.sch)
+			c3, _, d3 := rem.PartialContent(sh.sch)
+			return "first: " + contentDump(c1, d1) + "\nrest: " + contentDump(c2, d2) + "\nrest-partial: " + contentDump(c3, d3) + fmt.Sprintf("\nschema: %d blocks", len(sh.sch.Blocks))
+		}})
+	// D14: one remainder body (the result of an earlier PartialContent) shared by every goroutine
+	for _, js := range []bool{false, true} {
+		js := js
+		name, src := "D14-shared-remain-native-3", "a = n\nb = s\nblk \"x\" {\n  v = n\n}\nblk \"y\" {\n  v = s\n}\nother {\n}\n"
+		if js {
+			name, src = "D14-shared-remain-json-3", `{"a": "${n}", "b": "${s}", "blk": {"x": {"v": "${n}"}, "y": {"v": "${s}"}}, "other": {}}`
+		}
+		ds = append(ds, Driver{Name: name, Doc: "Content / PartialContent / JustAttributes on one shared remainder body (result of an earlier PartialContent that consumed attribute a)", Threads: 3,
+			Setup: func() any {
+				_, rem, _ := mustBody(src, js).PartialContent(&hcl.BodySchema{Attributes: []hcl.AttributeSchema{{Name: "a"}}})
+				return rem
+			},
+			Thread: func(shared any, i int) string {
+				rem := shared.(hcl.Body)
+				blkOnly := &hcl.BodySchema{Blocks: []hcl.BlockHeaderSchema{{Type: "blk", LabelNames: []string{"name"}}}}
+				var out []string
+				switch i {
+				case 0:
+					c, r2, d := rem.PartialContent(blkOnly)
+					out = append(out, "blk: "+contentDump(c, d))
+					c, d = r2.Content(&hcl.BodySchema{Attributes: []hcl.AttributeSchema{{Name: "b"}}, Blocks: []hcl.BlockHeaderSchema{{Type: "other"}}})
+					out = append(out, "then: "+contentDump(c, d))
+				case 1:
+					c, _, d := rem.PartialContent(&hcl.BodySchema{Attributes: []hcl.AttributeSchema{{Name: "zz"}}, Blocks: []hcl.BlockHeaderSchema{{Type: "blk", LabelNames: []string{"name"}}, {Type: "other"}}})
+					out = append(out, "blk+other: "+contentDump(c, d))
+				default:
+					c, d := rem.Content(&hcl.BodySchema{Attributes: []hcl.AttributeSchema{{Name: "b"}}, Blocks: []hcl.BlockHeaderSchema{{Type: "blk", LabelNames: []string{"name"}}, {Type: "other"}}})
+					out = append(out, "all: "+contentDump(c, d))
+					for _, b := range c.Blocks {
+						attrs, _ := b.Body.JustAttributes()
+						for n, at := range attrs {
+							v, vd := at.Expr.Value(ctxFor(i))
+							out = append(out, b.Type+"."+n+"="+show(v, vd))
+						}
+					}
+				}
+				c, _, d := rem.PartialContent(blkOnly)
+				out = append(out, "again: "+contentDump(c, d))
+				return strings.Join(out, "\n")
+			}})
+	}
+	// D15: JSON bodies in the array-of-objects forms (the body and a label level), several property
+	// counts per object: the per-call attribute collection must not write into the parsed tree
+	ds = append(ds, Driver{Name: "D15-json-array-forms-3", Doc: "Content / PartialContent / JustAttributes on JSON bodies given as arrays of objects with 1..5 properties in the first object", Threads: 3, Points: "struct",
+		Setup: func() any {
+			var bodies []hcl.Body
+			for n := 1; n <= 5; n++ {
+				var props []string
+				for k := 0; k < n; k++ {
+					props = append(props, fmt.Sprintf(`"a%d": "${n}"`, k))
+				}
+				bodies = append(bodies, mustBody(`[{`+strings.Join(props, ", ")+`}, {"z": "${s}"}, {"blk": [{"x": [{"v": 1, "w": 2, "u": 3}, {"t": 4}]}, {"y": {"v": 2}}]}]`, true))
+			}
+			return bodies
+		},
+		Thread: func(shared any, i int) string {
+			var out []string
+			for n, body := range shared.([]hcl.Body) {
+				sch := &hcl.BodySchema{Attributes: []hcl.AttributeSchema{{Name: "z"}}, Blocks: []hcl.BlockHeaderSchema{{Type: "blk", LabelNames: []string{"name"}}}}
+				for k := 0; k <= n; k++ {
+					sch.Attributes = append(sch.Attributes, hcl.AttributeSchema{Name: fmt.Sprintf("a%d", k)})
+				}
+				c, d := body.Content(sch)
+				out = append(out, contentDump(c, d))
+				if i == 1 {
+					pc, _, pd := body.PartialContent(&hcl.BodySchema{Attributes: []hcl.AttributeSchema{{Name: "z"}}})
+					out = append(out, contentDump(pc, pd))
+				}
+				for _, b := range c.Blocks {
+					attrs, ad := b.Body.JustAttributes()
+					var names []string
+					for an := range attrs {
+						names = append(names, an)
+					}
+					sort.Strings(names)
+					out = append(out, b.Labels[0]+": "+strings.Join(names, ",")+fmt.Sprint(ad.HasErrors()))
+				}
+				if at := c.Attributes["z"]; at != nil {
+					v, vd := at.Expr.Value(ctxFor(i))
+					out = append(out, show(v, vd))
+				}
+			}
+			return strings.Join(out, "\n")
+		}})
 	for i := range ds {
 		d := &ds[i]
-		body := strings.HasPrefix(d.Name, "D8-") || strings.HasPrefix(d.Name, "D9-") || strings.HasPrefix(d.Name, "D11-")
+		body := strings.HasPrefix(d.Name, "D8-") || strings.HasPrefix(d.Name, "D13-") || strings.HasPrefix(d.Name, "D14-") || strings.HasPrefix(d.Name, "D15-") || strings.HasPrefix(d.Name, "D9-") || strings.HasPrefix(d.Name, "D11-")
 		if d.Points == "" {
 			d.Points = "all"
 			if body {
